@@ -78,7 +78,7 @@ void AsyncFileAppender::keep_writing() noexcept {
         [&](Queue::Iterator iter, Queue::Iterator end) {
           while (iter < end) {
             auto& item = *iter++;
-            if (ABSL_PREDICT_FALSE(item.entry.size == 0)) {
+            if (ABSL_PREDICT_FALSE(item.file == nullptr)) {
               stop = true;
               break;
             }
